@@ -672,6 +672,15 @@ def call_method(ip, obj, fam, name, args, kwargs, lineno):
                 return list(obj.values())
             if name == "get":
                 return obj.get(ip.hashable(args[0]), args[1] if len(args) > 1 else None)
+            if name == "update":
+                for a in args:
+                    obj.update(a)
+                obj.update(kwargs)
+                return None
+            if name == "copy":
+                return dict(obj)
+            if name == "pop":
+                return obj.pop(ip.hashable(args[0]), *args[1:])
         if isinstance(obj, str):
             return getattr(obj, name)(*args)
         raise Unsupported("method %s on %s" % (name, type(obj).__name__))
